@@ -187,6 +187,8 @@ where
                 };
 
                 let ev_type = event.data() as u16;
+                #[cfg(feature = "verif-hooks")]
+                vhost::vhost_user::verif::hold("worker.after_epoll");
 
                 // handle_event() returns true if an event is received from the exit event fd.
                 if self.handle_event(ev_type, evset)? {
@@ -209,12 +211,16 @@ where
                 .read_kick()
                 .map_err(VringEpollError::HandleEventReadKick)?;
 
+            #[cfg(feature = "verif-hooks")]
+            vhost::vhost_user::verif::hold("worker.after_read_kick");
             // If the vring is not enabled, it should not be processed.
             if !enabled {
                 return Ok(false);
             }
         }
 
+        #[cfg(feature = "verif-hooks")]
+        vhost::vhost_user::verif::hold("worker.before_dispatch");
         self.backend
             .handle_event(device_event, evset, &self.vrings, self.thread_id)
             .map_err(VringEpollError::HandleEventBackendHandling)?;
